@@ -69,8 +69,9 @@ def run(ctx):
                 kind = "cap(V)"
             sig = "%s: %s %s after %s" % (kind, o["m"], s(o["p"]), hist[-2] if len(hist) > 1 else "nothing")
         else:
-            what = "registration of %r: accepted=%s differs from the statement" % (UNIVERSE[o["u"] - 1], o["acc"])
-            sig = "registration " + str(UNIVERSE[o["u"] - 1])
+            ctx.level = "exploration"
+            ctx.notes.append("DRIFT: registration of %r accepted=%s differs from the model (history not judged further)" % (UNIVERSE[o["u"] - 1], o["acc"]))
+            continue
         if sig in seen:
             continue
         seen.add(sig)
